@@ -254,7 +254,12 @@ class ExceptionTrace(object):
 
     def _escape(self, text):  # type: (str) -> str
         # The message is text, not markup: keep its "<" characters literal
-        return text.replace("<", "\\<")
+        text = text.replace("<", "\\<")
+        if text.endswith("\\"):
+            # A backslash right before a tag would escape that tag
+            text += " "
+
+        return text
 
     def _render_legacy(self, io):
         if hasattr(self._exception, "__traceback__"):
